@@ -61,6 +61,8 @@ var setValues = []setValue{
 	{"map", `'(("c" . 1))`, map[string]any{"c": int64(1)}},
 	// a container holding a container: a wildcard or descent set must give every location its own copy all the way down
 	{"nest", `'(("c" . (1 2)))`, map[string]any{"c": []any{int64(1), int64(2)}}},
+	// members that a careless copy loses or changes: a null member, an integer beyond 64 bits
+	{"mapnull", `(make-bag "{c:null d:12345678901234567890}")`, map[string]any{"c": nil, "d": json.Number("12345678901234567890")}},
 	{"str", `"s"`, "s"},
 	{"list", `'(8 9)`, []any{int64(8), int64(9)}},
 }
@@ -77,7 +79,7 @@ func valueByName(n string) (setValue, bool) {
 func bfsOps(tier string) []string {
 	docs := initDocsQuick
 	paths := pathMenu
-	vals := setValues[:4]
+	vals := setValues[:5]
 	if tier == engine.Thorough {
 		docs = append(append([]string{}, docs...), initDocsThoroughExtra...)
 		paths = append(append([]string{}, paths...), pathMenuThoroughExtra...)
